@@ -44,6 +44,8 @@ pub fn base64url_decode(b64data: &str) -> Result<Vec<u8>> {
 }
 
 pub(crate) fn generate_salt() -> String {
+    #[cfg(feature = "verif_hooks")]
+    crate::verif_hooks::point(crate::verif_hooks::Point::SaltDraw);
     let mut buf = [0u8; 16];
     ThreadRng::default().fill_bytes(&mut buf);
     base64url_encode(&buf)
